@@ -68,7 +68,7 @@ impl<T: Item> ObsBuf<T> {
 
 /// Applies one operation to one handle. Writes the observation progressively, so that
 /// what was observed before a panic is still there after the unwind.
-pub fn apply<T: Item + Ord>(h: &mut Option<Dyn<T>>, op: &Op, out: &mut ObsBuf<T>) {
+pub fn apply<T: Item>(h: &mut Option<Dyn<T>>, op: &Op, out: &mut ObsBuf<T>) {
     use Op::*;
     if op.is_consuming() {
         let it = match h.take() {
@@ -135,10 +135,50 @@ pub fn apply<T: Item + Ord>(h: &mut Option<Dyn<T>>, op: &Op, out: &mut ObsBuf<T>
                 }
                 out.text.push(']');
             }
-            MinMax => {
-                // `max` is `reduce`, i.e. one `next` and then the forwarded `fold`
-                let b = it.max();
-                out.see_opt(&b);
+            Max => {
+                let r = it.max();
+                out.see_opt(&r);
+            }
+            Min => {
+                let r = it.min();
+                out.see_opt(&r);
+            }
+            MaxBy => {
+                let r = it.max_by(|a, b| b.cmp(a));
+                out.see_opt(&r);
+            }
+            MinBy => {
+                let r = it.min_by(|a, b| b.cmp(a));
+                out.see_opt(&r);
+            }
+            MaxByKey => {
+                let r = it.0.max_by_key(&mut |x| x.key());
+                out.see_opt(&r);
+            }
+            MinByKey => {
+                let r = it.0.min_by_key(&mut |x| x.key());
+                out.see_opt(&r);
+            }
+            Reduce => {
+                let mut calls = 0usize;
+                let r = it.reduce(|a, b| {
+                    calls += 1;
+                    if b.key() >= a.key() {
+                        b
+                    } else {
+                        a
+                    }
+                });
+                out.see_opt(&r);
+                let _ = write!(out.text, "/{}", calls);
+            }
+            ForEach => {
+                it.for_each(|x| out.see(&x));
+                out.text.push_str(";done");
+            }
+            IsSorted => {
+                let r = it.is_sorted();
+                let _ = write!(out.text, "{}", r);
             }
             FoldPanic(k) => {
                 let mut c = 0usize;
@@ -258,7 +298,7 @@ pub fn apply<T: Item + Ord>(h: &mut Option<Dyn<T>>, op: &Op, out: &mut ObsBuf<T>
         }
         Rposition(k) => {
             let mut c = 0usize;
-            let r = it.rposition(|_| {
+            let r = it.0.rposition(&mut |_| {
                 c += 1;
                 c == *k
             });
@@ -271,6 +311,24 @@ pub fn apply<T: Item + Ord>(h: &mut Option<Dyn<T>>, op: &Op, out: &mut ObsBuf<T>
         SkipNext(k) => {
             let r = it.by_ref().skip(*k).next();
             out.see_opt(&r);
+        }
+        All(k) => {
+            let mut c = 0usize;
+            let r = it.all(|x| {
+                c += 1;
+                out.see(&x);
+                c != *k
+            });
+            let _ = write!(out.text, ";{}", r);
+        }
+        Any(k) => {
+            let mut c = 0usize;
+            let r = it.any(|x| {
+                c += 1;
+                out.see(&x);
+                c == *k
+            });
+            let _ = write!(out.text, ";{}", r);
         }
         ForEachPanic(k) => {
             let mut c = 0usize;
@@ -352,7 +410,7 @@ pub enum Outcome {
     Panic(String),
 }
 
-fn guarded<T: Item + Ord>(h: &mut Option<Dyn<T>>, op: &Op, migrate: bool) -> (ObsBuf<T>, Outcome) {
+fn guarded<T: Item>(h: &mut Option<Dyn<T>>, op: &Op, migrate: bool) -> (ObsBuf<T>, Outcome) {
     let mut out = ObsBuf::new();
     let r = if migrate {
         // the handle travels to a helper thread and back; strict hand-off, never two runnable
@@ -890,7 +948,7 @@ pub fn run_history(m: &'static Module, history: &[Event], opts: &ExecOpts) -> Ru
                 // early exit of a consumer
                 match &ev.op {
                     Op::TryFold(k) | Op::TryRfold(k) | Op::Find(k) | Op::Rfind(k)
-                    | Op::Position(k) | Op::Rposition(k) => {
+                    | Op::Position(k) | Op::Rposition(k) | Op::All(k) | Op::Any(k) => {
                         if *k >= 1 && *k < len_before {
                             stats.early_exit += 1;
                         }
